@@ -643,6 +643,52 @@ def c18_list_states(params, tier):
     return [("c18_list_states:%s" % sorted(p.items()), b.h, Config(usage=bool(p["usage"]), allow_list=bool(p["allow"])), {})]
 
 
+@family("C02", "C01", "C08")
+def c02_deleted_under_subscriber(params, tier):
+    """A mailbox is deleted (last close, or expiry while nobody of it is... no: last close) while a further connection of
+    a side that has closed is still attached; the same id is then used again by others: the old connection's
+    subscription ended with the mailbox, it receives nothing of the new incarnation; the newcomers start empty."""
+    if params is None:
+        return [{"usage": u, "extra": e, "restart": r} for u in (0, 1) for e in ("same-side", "other-side", "both") for r in (0, 1)]
+    p = params
+    b = HB()
+    b.tag = "dus"
+    a1 = b.conn("app", "s1")
+    b.send(a1, type="open", mailbox="mD")
+    bb = b.conn("app", "s2")
+    b.send(bb, type="open", mailbox="mD")
+    extras = []
+    if p["extra"] in ("same-side", "both"):
+        a2 = b.conn("app", "s1")
+        b.send(a2, type="open", mailbox="mD")
+        extras.append(a2)
+    if p["extra"] in ("other-side", "both"):
+        b2 = b.conn("app", "s2")
+        b.send(b2, type="open", mailbox="mD")
+        extras.append(b2)
+    b.add(a1, "old1")
+    b.add(bb, "old2")
+    b.send(bb, type="close", mood="happy")
+    b.send(a1, type="close", mood="happy")       # last side closed: mD is deleted under the extra connections
+    for e in extras:
+        b.send(e, type="ping", ping=1)
+    if p["restart"]:
+        b.adv(2)
+    c = b.conn("app", "s1")
+    b.send(c, type="open", mailbox="mD")         # a new incarnation: starts empty
+    d = b.conn("app", "s2")
+    b.send(d, type="open", mailbox="mD")
+    b.add(c, "new1")
+    b.add(d, "new2")
+    for e in extras:
+        b.send(e, type="ping", ping=2)
+    b.adv(300)
+    b.add(c, "new3")
+    b.send(c, type="close", mood="happy")
+    b.send(d, type="close", mood="happy")
+    return [("c02_deleted_under_subscriber:%s" % sorted(p.items()), b.h, U if p["usage"] else NU, {})]
+
+
 @family("C05", "C14")
 def c05_first_two_return(params, tier):
     """F7: after a third side was refused, a first-two side reconnects."""
